@@ -1,17 +1,47 @@
 (* The shape of lazymap.go that D2/LazyMap.v transcribes (see harness/cmd/extract/t_lazymap.go for the codes):
-   per function, the yield points and the atomic calls / returns in source order.  Re-checked against the table the
-   translator regenerates from /repo on every run: moving, dropping or adding a call or a yield point breaks this lemma. *)
-From Coq Require Import List.
+   per function, in source order, the yield points, the atomic calls / returns, the accesses to the placeholder's result
+   field v (109), type assertions (122), defer / go (130 / 131), and the form of every `if` condition and boolean flag
+   assignment (140-146, followed by 1000 + the index of the variable).  Re-checked against the table the translator
+   regenerates from /repo on every run: moving, dropping, adding, deferring a call or a yield point, reading the result
+   field at another place, or changing what a branch tests breaks these lemmas. *)
+From Coq Require Import List Arith.
 From GR Require Import Gen.TablesLazyMap.
 Import ListNotations.
 
 Definition modelled_shape : list (list nat) :=
-  [ (* LoadOrStore: new, Add, [1] map.LoadOrStore, [2] Wait, return v.v, return s, [3] f(), [4] map.Store, [5] Done, return *)
-    [108; 106; 1; 101; 2; 104; 120; 120; 3; 107; 4; 103; 5; 105; 120];
-    (* Load: [6] map.Load, return nil, [7] Wait, return v.v, return s *)
-    [6; 102; 120; 7; 104; 120; 120];
-    (* Store: m.LoadOrStore(closure: [8] stored = true; return value), [9] map.Store *)
-    [111; 8; 120; 9; 103] ].
+  [ (* LoadOrStore: new, Add, [1] if (_, loaded := map.LoadOrStore; loaded) { if (v, ok := <type assertion on s>; ok) { [2] Wait,
+       return v.v } return s }, [3] value.v = f(), [4] map.Store(key, value.v), [5] Done, return value.v *)
+    [108; 106; 1; 140; 1000; 101; 140; 1001; 122; 2; 104; 120; 109; 120; 3; 109; 107; 4; 103; 109; 5; 105; 120; 109];
+    (* Load: [6] map.Load, if !ok { return nil,false }, if (v, ok' := <type assertion on s>; ok') { [7] Wait, return v.v }, return s *)
+    [6; 102; 141; 1000; 120; 140; 1001; 122; 7; 104; 120; 109; 120];
+    (* Store: stored := false, m.LoadOrStore(closure: [8] stored = true; return value), if !stored { [9] map.Store } *)
+    [146; 1000; 111; 8; 145; 1000; 120; 141; 1000; 9; 103] ].
 
 Lemma source_shape_is_modelled : v2_lazymap_shape = modelled_shape /\ root_lazymap_shape = modelled_shape.
 Proof. split; reflexivity. Qed.
+
+(* ---- the two facts about data and control flow that the model's steps rely on, stated on their own *)
+
+(* what follows the first occurrence of yield point p *)
+Fixpoint after_point (p : nat) (l : list nat) : list nat :=
+  match l with [] => [] | x :: r => if Nat.eqb x p then r else after_point p r end.
+
+(* A waiter (LazyMap.v: PWait q, enabled only when cdone (cells s q), returns cell_ret (cells s q), i.e. the field as
+   it is AFTER Done): directly after its yield point comes the Wait call itself - not a deferred (130) or spawned
+   (131) one - and only then the return statement whose operand reads the result field. *)
+Definition waits_then_reads (p : nat) (fn : list nat) : Prop := firstn 3 (after_point p fn) = [104; 120; 109].
+
+Definition shapes : list (list (list nat)) := [v2_lazymap_shape; root_lazymap_shape].
+
+Lemma waiters_read_result_after_wait : forall sh, In sh shapes ->
+  waits_then_reads 2 (nth 0 sh []) /\ waits_then_reads 7 (nth 1 sh []).
+Proof. intros sh [<-|[<-|[]]]; split; reflexivity. Qed.
+
+(* Store (LazyMap.v: a Store whose closure ran - PCall .. PDone - returns at Done WITHOUT the overwrite; a Store that
+   found a value or waited for a placeholder goes to PRaw = point 9 ALWAYS, whatever the values are): the flag is
+   declared false, the closure passed to m.LoadOrStore sets that same flag at yield point 8, and the overwrite at
+   yield point 9 is guarded by the negation of that same flag and by nothing else. *)
+Definition store_shape : list nat := [146; 1000; 111; 8; 145; 1000; 120; 141; 1000; 9; 103].
+
+Lemma store_overwrites_iff_its_closure_did_not_run : forall sh, In sh shapes -> nth 2 sh [] = store_shape.
+Proof. intros sh [<-|[<-|[]]]; reflexivity. Qed.
